@@ -1827,6 +1827,79 @@ theorem c14_rest_get_kind_fits_field (g : Sig) (method : String) (mn mx : Nat) (
             subst h
             simp [hg]
 
+/-! ### any number of open connections -/
+
+theorem wsStep_idle {σ M R : Type} (svc : WsSvc σ M R) (s : σ) (t : WsThread) (h : t.todo = []) :
+    wsStep svc s t = none := by
+  unfold wsStep
+  split
+  · rfl
+  · simp [h]
+
+theorem step_with_idle (cfg : Cfg σ M R O B) (y : Sys σ O B R) (idle : List WsThread)
+    (hidle : ∀ t ∈ idle, t.todo = []) (a : Act) :
+    step cfg { y with ws := y.ws ++ idle } a = (step cfg y a).map (fun y' => { y' with ws := y'.ws ++ idle }) := by
+  cases a with
+  | http i =>
+    simp only [step]
+    cases hi : y.http[i]? with
+    | none => rfl
+    | some t =>
+      simp only []
+      cases hs : httpStep cfg y.svc y.slots t with
+      | none => rfl
+      | some r => obtain ⟨s', sl', t'⟩ := r; rfl
+  | ws i =>
+    simp only [step]
+    by_cases hlt : i < y.ws.length
+    · rw [List.getElem?_append_left hlt]
+      cases hi : y.ws[i]? with
+      | none => rfl
+      | some t =>
+        simp only []
+        cases hs : wsStep cfg.ws y.svc t with
+        | none => rfl
+        | some r =>
+          obtain ⟨s', t'⟩ := r
+          simp only [Option.map_some, List.set_append_left _ _ hlt]
+    · have hn : y.ws[i]? = none := List.getElem?_eq_none (by omega)
+      rw [hn]
+      rw [List.getElem?_append_right (by omega)]
+      cases hi : idle[i - y.ws.length]? with
+      | none => rfl
+      | some t =>
+        have := wsStep_idle cfg.ws y.svc t (hidle t (List.mem_of_getElem? hi))
+        simp [this]
+
+/-- **no bound on the connections that are open at the same time** (seed C14r6-B: a counting
+semaphore of 128 around every service handler, held by a websocket connection for its whole life):
+any number of further connections that are open and idle — kept-alive clients between two requests —
+changes nothing for anybody: for every schedule the system with them is, connection by connection,
+request by request, answer by answer, the system without them (plus the idle connections, untouched). -/
+theorem c14_open_connections_unbounded (cfg : Cfg σ M R O B) (y : Sys σ O B R) (idle : List WsThread)
+    (hidle : ∀ t ∈ idle, t.todo = []) (sched : List Act) :
+    run cfg { y with ws := y.ws ++ idle } sched = { run cfg y sched with ws := (run cfg y sched).ws ++ idle } := by
+  induction sched generalizing y with
+  | nil => rfl
+  | cons a as ih =>
+    simp only [run]
+    rw [step_with_idle cfg y idle hidle a]
+    cases hs : step cfg y a with
+    | none => exact ih y
+    | some y' => exact ih y'
+
+/-- … and a connection with a request waiting can always be served, whatever else is open: whether
+its goroutine can move depends on that connection alone -/
+theorem c14_request_served_whatever_else_is_open (cfg : Cfg σ M R O B) (y : Sys σ O B R) (i : Nat) (t : WsThread)
+    (hi : y.ws[i]? = some t) (hc : t.closed = false) (b : Bytes) (bs : List Bytes) (ht : t.todo = b :: bs) :
+    (step cfg y (.ws i)).isSome = true := by
+  simp [step, hi, wsStep, hc, ht]
+
+/-- non-vacuity: any number n of idle connections (the correspondence run opens 300 and 1100) -/
+example (n : Nat) : ∀ t ∈ List.replicate n ({ path := "C14Echo", todo := [] } : WsThread), t.todo = [] := by
+  intro t ht
+  rw [List.eq_of_mem_replicate ht]
+
 /-! ### `SendProtobufParallelWithDecoder` with `QuitError`: `done` is closed once -/
 
 /-- **the first error and an accepted reply may come at the same moment; `done` is closed once**
